@@ -19,11 +19,19 @@ import (
 	"github.com/formancehq/numscript/zzverif/vm"
 )
 
-const (
-	VerifDir   = "/verif"
+var (
+	VerifDir   = verifDir()
 	RepoDir    = "/repo"
 	HarnessDir = VerifDir + "/harness"
 )
+
+// verifDir: /verif, or the snapshot directory a background run works in.
+func verifDir() string {
+	if d := os.Getenv("VERIF_DIR"); d != "" {
+		return d
+	}
+	return "/verif"
+}
 
 type Case struct {
 	ID       string
